@@ -202,7 +202,17 @@ class _LinAlg:
         raise PathEnd('unsupported', f'np.linalg.{name}')
 
 
+class _UnstubbedGenerator:
+    """what np.random.default_rng() returns in a symbolic run: constructing it is harmless, drawing from it must be stubbed by the harness"""
+
+    def __getattr__(self, name):
+        raise PathEnd('unsupported', f'random generator method {name} (stub it in the harness)')
+
+
 class _Random:
+    def default_rng(self, *a, **k):
+        return _UnstubbedGenerator()
+
     def __getattr__(self, name):
         raise PathEnd('unsupported', f'np.random.{name} (stub it in the harness)')
 
